@@ -245,7 +245,7 @@ cleanup:
 
 static bool isMaxLevelValid(KSI_uint64_t val) {
 	/* Values under 1 and over 20 are discarded. */
-	return (val > 0 || val <= KSI_HA_CONF_MAX_LEVEL);
+	return (val > 0 && val <= KSI_HA_CONF_MAX_LEVEL);
 }
 
 static bool isAggrAlgoValid(KSI_uint64_t val) {
@@ -255,12 +255,12 @@ static bool isAggrAlgoValid(KSI_uint64_t val) {
 
 static bool isAggrPeriodValid(KSI_uint64_t val) {
 	/* Values under 0.1 and over 20 seconds are discarded. */
-	return (val > KSI_HA_CONF_MIN_PERIOD_MS || val <= KSI_HA_CONF_MAX_PERIOD_MS);
+	return (val >= KSI_HA_CONF_MIN_PERIOD_MS && val <= KSI_HA_CONF_MAX_PERIOD_MS);
 }
 
 static bool isMaxRequestsValid(KSI_uint64_t val) {
 	/* Values under 1 and over 16000 are discarded. */
-	return (val > 0 || val <= KSI_HA_CONF_MAX_REQUESTS);
+	return (val > 0 && val <= KSI_HA_CONF_MAX_REQUESTS);
 }
 
 static bool isCalendarTimeValid(KSI_uint64_t val) {
@@ -490,7 +490,6 @@ static int KSI_Config_consolidateCalendarLastTime(KSI_Config *haCfg, KSI_Config 
 	int res = KSI_UNKNOWN_ERROR;
 	KSI_Integer *haVal = NULL;
 	KSI_Integer *respVal = NULL;
-	KSI_Integer *haValFirst = NULL;
 
 	if (haCfg == NULL || respCfg == NULL || updated == NULL) {
 		res = KSI_INVALID_ARGUMENT;
@@ -507,10 +506,7 @@ static int KSI_Config_consolidateCalendarLastTime(KSI_Config *haCfg, KSI_Config 
 		goto cleanup;
 	}
 
-	res = KSI_Config_getCalendarFirstTime(haCfg, &haValFirst);
-	if (res != KSI_OK) goto cleanup;
-
-	if (KSI_Integer_compare(haValFirst, respVal) > 0 && isCalendarTimeValid(KSI_Integer_getUInt64(respVal)) != true) {
+	if (isCalendarTimeValid(KSI_Integer_getUInt64(respVal)) != true) {
 		KSI_LOG_info(KSI_Config_getCtx(haCfg), "The calendar last time is not in the valid range (%llu).",
 				(unsigned long long)KSI_Integer_getUInt64(respVal));
 		res = KSI_OK;
